@@ -359,7 +359,7 @@ theorem facts_block (stamp : Text) (hs : stamp.all stampChar = true) (b : Byte) 
   have h_data : dataLine (stamp ++ (shellTag ++ (renderBlockL (b :: bs) ++ ['\n']))) = .bytes (b :: bs) := by
     have : reData (stamp ++ (shellTag ++ (renderBlockL (b :: bs) ++ ['\n']))) = some (renderItems (b :: bs)) := by
       skipdata; skipdata
-      have := reData_block [] ['\n'] (b :: bs) rfl
+      have := reData_block [] ['\n'] b bs rfl rfl
       simpa using this
     unfold dataLine; rw [this]; simp only [decodeHexList_renderItems]
   have h_snap : searchRe [.lit t!"Snapshot"] (stamp ++ (shellTag ++ (renderBlockL (b :: bs) ++ ['\n']))) = none := by dead
